@@ -226,7 +226,7 @@ CHECKS["C17"] = dict(
     assumptions=["more than 3 threads / 2 preemptions and weak-memory reorderings beyond TSan's model are not covered", "ICU's and libstdc++'s internal synchronisation is trusted"],
     coverage=_c17_cov,
     runs=dict(
-        quick=[_sx("schedules-tsan-bound1", "tsan", "--bound", 1, "--budget", 1500)],
+        quick=[_sx("schedules-tsan-bound1-2threads", "tsan", "--bound", 1, "--budget", 1500, "--max-threads", 2)],
         thorough=[_sx("schedules-tsan-bound2", "tsan", "--bound", 2, "--budget", 2500),
                   _sx("schedules-asan-bound1", "asan", "--bound", 1, "--budget", 1500)],
     ),
